@@ -318,3 +318,48 @@ pub fn ssa_eval(ssa: &[GOp], vars: &[f32]) -> SsaRun {
     }
     SsaRun { outs, clauses, vals, undefined_read, bitsens }
 }
+
+/// A choice clause with its operands exported: `[name, class, lhs output
+/// index, rhs output index or -1, imm bits]`, clauses in evaluation order
+#[derive(Clone, Debug)]
+pub struct ClauseSpec {
+    pub name: String,
+    pub class: u8,
+    pub lidx: i64,
+    pub ridx: i64,
+    pub imm: i64,
+}
+impl ClauseSpec {
+    pub fn json(&self) -> serde_json::Value {
+        json!([self.name, self.class, self.lidx, self.ridx, self.imm])
+    }
+}
+
+/// Adds `Output` ops for the operand slots of every choice clause, so that
+/// each evaluator reports the operand values it actually computed (local
+/// obligation: a trace entry is judged against that evaluator's own operands).
+pub fn export_clause_operands(p: &Prog) -> (Prog, Vec<ClauseSpec>) {
+    let mut nout = p.nout() as i64;
+    let mut extra = vec![];
+    let mut specs = vec![];
+    for g in p.ssa.iter().rev() {
+        if g.is_choice() {
+            let lidx = nout;
+            extra.push(GOp::new(0, "Output", -1, g.a, lidx, 0));
+            nout += 1;
+            let ridx = if g.class == 6 {
+                extra.push(GOp::new(0, "Output", -1, g.b, nout, 0));
+                nout += 1;
+                nout - 1
+            } else {
+                -1
+            };
+            specs.push(ClauseSpec { name: g.name.clone(), class: g.class, lidx, ridx, imm: g.imm });
+        }
+    }
+    let mut ssa = extra;
+    ssa.extend(p.ssa.iter().cloned());
+    // slot names must stay below the tape length (the allocator sizes its table by it): true
+    // here because the tape only grew
+    (Prog { ssa, nvars: p.nvars }, specs)
+}
